@@ -316,7 +316,7 @@ def apply_time_range_vtodo(start, end, comp, tzify):
             )
         elif due and not duration:
             return (start <= tzify(dtstart.dt) or start < tzify(due.dt)) and (
-                end > tzify(dtstart.dt) or end < tzify(due.dt)
+                end > tzify(dtstart.dt) or end >= tzify(due.dt)
             )
         else:
             return start <= tzify(dtstart.dt) and end > tzify(dtstart.dt)
